@@ -21,7 +21,15 @@ func Seed(cfg *Config, name string) []uint32 {
 	c := New(cfg)
 	defer c.Close()
 	var path []uint32
-	do := func(e uint32) { c.Apply(e); path = append(path, e) }
+	// a seed prefix is an ordinary path: if an oracle already fails on it the script stops
+	// there and the search reports it from its root state
+	do := func(e uint32) {
+		if len(c.bad) > 0 {
+			return
+		}
+		c.Apply(e)
+		path = append(path, e)
+	}
 	deliverAll := func(skipTo uint64) {
 		for i := 0; i < 200; i++ {
 			k := -1
@@ -33,7 +41,7 @@ func Seed(cfg *Config, name string) []uint32 {
 					}
 				}
 			}
-			if k < 0 {
+			if k < 0 || len(c.bad) > 0 {
 				return
 			}
 			do(Ev(EvDeliver, k, 0, 0))
@@ -65,7 +73,7 @@ func Seed(cfg *Config, name string) []uint32 {
 						break
 					}
 				}
-				if k < 0 {
+				if k < 0 || len(c.bad) > 0 {
 					break
 				}
 				do(Ev(EvDrop, k, 0, 0))
@@ -86,7 +94,7 @@ func Seed(cfg *Config, name string) []uint32 {
 			do(Ev(EvTick, 1, 0, 0))
 			deliverAll(0)
 		}
-	case "divergent":
+	case "divergent", "stale-long":
 		// replica 1: old leader with an uncommitted entry; replica 2: leader of the next term
 		// with a different uncommitted entry at the same index; replica 3 has neither.
 		// (needs PreVote/CheckQuorum off, as the elections are driven by plain timeouts)
@@ -99,7 +107,7 @@ func Seed(cfg *Config, name string) []uint32 {
 						break
 					}
 				}
-				if k < 0 {
+				if k < 0 || len(c.bad) > 0 {
 					return
 				}
 				do(Ev(EvDrop, k, 0, 0))
@@ -108,6 +116,10 @@ func Seed(cfg *Config, name string) []uint32 {
 		do(Ev(EvTimeout, 1, 0, 0))
 		deliverAll(0)
 		do(Ev(EvPropose, 1, 0, 0))
+		if name == "stale-long" {
+			// the old leader has two uncommitted entries: a longer log with an older term
+			do(Ev(EvPropose, 1, 0, 0))
+		}
 		dropTo(func(m pb.Message) bool { return m.From == 1 })
 		do(Ev(EvTimeout, 2, 0, 0))
 		for i := 0; i < 20; i++ {
@@ -118,17 +130,33 @@ func Seed(cfg *Config, name string) []uint32 {
 					break
 				}
 			}
-			if k < 0 {
+			if k < 0 || len(c.bad) > 0 {
 				break
 			}
 			do(Ev(EvDeliver, k, 0, 0))
 		}
 		dropTo(func(m pb.Message) bool { return true })
+		if name == "stale-long" {
+			// the new leader replicates and commits its entry on replica 3 (one heartbeat
+			// round trip makes it resend the append that was lost)
+			do(Ev(EvTick, 2, 0, 0))
+			for i := 0; i < 30; i++ {
+				k := -1
+				for j, m := range c.net {
+					if (m.m.From == 2 && m.m.To == 3) || (m.m.From == 3 && m.m.To == 2) {
+						k = j
+						break
+					}
+				}
+				if k < 0 || len(c.bad) > 0 {
+					break
+				}
+				do(Ev(EvDeliver, k, 0, 0))
+			}
+			dropTo(func(m pb.Message) bool { return true })
+		}
 	default:
 		panic("unknown seed " + name)
-	}
-	if len(c.bad) > 0 {
-		panic(fmt.Sprintf("seed %s violates: %v", name, c.bad))
 	}
 	// seeds must not consume the search budgets
 	return path
